@@ -78,8 +78,8 @@ func (t hostile) String() string {
 
 func init() {
 	h.Register(&h.Check{
-		ID:          "C07",
-		Rule:        "complete product format x length-bytes x declared length x bytes present x nesting depth x enclosing declared count; honest inputs of 2^k bytes for every format; all texts up to k bytes over byte / 24-symbol alphabets behind a valid header; each decoded by the real decoder in an rlimited worker, oracle = normal return and heap allocation delta <= 64 KiB + 2048 B per input byte; non-trivial = input decoded and measured",
+		ID:   "C07",
+		Rule: "complete product format x length-bytes x declared length x bytes present x nesting depth x enclosing declared count; honest inputs of 2^k bytes for every format; all texts up to k bytes over byte / 24-symbol alphabets behind a valid header; each decoded by the real decoder in an rlimited worker, oracle = normal return and heap allocation delta <= 64 KiB + 2048 B per input byte; non-trivial = input decoded and measured",
 		Assumptions: []string{"allocation constants are measured, not derived: worst honest input (lists of empty items) allocates about 530 B per input byte on this tree",
 			"the heap allocation counter does not include goroutine stack; stack exhaustion shows as a dead worker (process abort), which is a violation of its own"},
 		WatchdogSec: 120,
